@@ -8,7 +8,7 @@
    ConnDown, EventMsg) from the freshly constructed pairing; [raises l e] says whether listener l
    raises when called with e.  All theorems hold for every h, raises and script: no bound. *)
 From Coq Require Import List NArith ZArith Bool.
-From AHK Require Import Model.Subs Proofs.Subs Proofs.SubsStep Proofs.SubsMain.
+From AHK Require Import Model.Subs Model.SubsConc Proofs.Subs Proofs.SubsStep Proofs.SubsMain Proofs.SubsConc.
 Import ListNotations.
 
 (* the subscription set and the listener collection are sets (no duplicates), always *)
@@ -154,6 +154,56 @@ Theorem empty_and_nonjson_ignored : forall raises acts s,
     step raises acts s (EventMsg BEmpty) = (s, []) /\ step raises acts s (EventMsg BNonJson) = (s, []).
 Proof. exact ignored_bodies. Qed.
 
+(* ------------------------------------------------------------------ overlapping calls (Model/SubsConc.v)
+   [crun raises acts h]: any interleaving of calls being started (CStart), the accessory answering the single
+   request on the wire (CAnswer), dropping the session (CDrop), the connector bringing up a new session whose
+   re-subscribe is itself a queued call (CConnUp, for every iteration order of the Python set), listener changes
+   and EVENTs arriving between requests and responses (CBase).  Requests are serialised FIFO, one at a time. *)
+
+(* sets stay sets; nothing stays queued on a dead session; a queued call always has a request to send *)
+Theorem conc_state_invariant : forall raises acts h,
+    let s := fst (crun raises acts h) in
+    NoDup (subs (base s)) /\ NoDup (lst (base s))
+    /\ (conn (base s) = false -> queue s = []) /\ wf_queue (queue s).
+Proof. exact main_conc_invariant. Qed.
+
+(* fall-back under overlap: push mode is on after a history iff no ev:true request ended with the
+   AccessoryDisconnectedError class - cut off on the wire, answered 4xx, or abandoned in the queue by a drop *)
+Theorem conc_fallback_only_after_cutoff : forall raises acts h,
+    sup (base (fst (crun raises acts h))) = negb (existsb ccutoff (snd (crun raises acts h))).
+Proof. exact main_conc_fallback. Qed.
+
+(* re-subscription is complete also when calls overlap with it and with each other: in every history in which
+   nobody unsubscribes and the accessory rejects no id (any drops, cut-offs, 4xx, reconnects, subscribe calls
+   started at any moment - also while the connector is still re-subscribing), whenever the session is up, push
+   mode is on and nothing is outstanding, the accessory has agreed on THIS session to notify every subscribed id *)
+Theorem conc_resubscribe_complete : forall raises acts h,
+    forallb benign h = true ->
+    let s := fst (crun raises acts h) in
+    conn (base s) = true -> sup (base s) = true -> queue s = [] ->
+    forall c, In c (subs (base s)) -> In c (acc s).
+Proof. exact main_conc_resubscribe. Qed.
+
+(* a subscribe() that does not overlap with anything is exactly one step of the coarse machine *)
+Theorem conc_sequential_subscribe_refines : forall raises acts h tag cs,
+    let s := fst (crun raises acts h) in
+    queue s = [] -> conn (base s) = true -> sup (base s) = true ->
+    base (fst (crun_from raises acts s (CStart true tag cs :: repeat (CAnswer ROk) (length (runs cs)))))
+    = fst (step raises acts (base s) (Subscribe cs []))
+    /\ queue (fst (crun_from raises acts s (CStart true tag cs :: repeat (CAnswer ROk) (length (runs cs))))) = [].
+Proof. exact main_conc_sequential. Qed.
+
+(* REFUTED for the code as it is: "the caller's last call for a characteristic wins".  unsubscribe() forgets its
+   ids when its LAST request is answered, so a subscribe() for the same id started meanwhile is undone: the id is
+   missing from the subscription set (and will not be re-subscribed after the next reconnect) although the
+   accessory's latest instruction for it is ev:true.  Reproduced on the real code (notes/C12.md). *)
+Theorem conc_last_call_wins_refuted : forall raises acts,
+    exists h c, last_call c h None = Some true
+                /\ (let s := fst (crun raises acts h) in
+                    ~ In c (subs (base s)) /\ In c (acc s)
+                    /\ sup (base s) = true /\ conn (base s) = true /\ queue s = []).
+Proof. exact main_conc_race. Qed.
+
 (* ------------------------------------------------------------------ non-vacuity *)
 Local Open Scope N_scope.
 Definition ex_raises (l : lid) (_ : fevent) : bool := N.eqb l 2.     (* listener 2 always raises *)
@@ -200,6 +250,22 @@ Example c12_nonvacuous_fallback :
   /\ conn (fst (run ex_raises ex_acts (ex_hist ++ [ConnUp [(1%N, RHttp4xx)]]))) = true.
 Proof. vm_compute. repeat split; try reflexivity. repeat (first [left; reflexivity | right]). Qed.
 
+(* overlap non-vacuity: a subscribe() with a non-contiguous aid order (three requests) is started while the connector
+   is still re-subscribing, an EVENT arrives between a request and its response; the benign history reaches a
+   quiescent, connected, push-mode state in which the accessory has agreed to all 4 subscribed ids *)
+Example c12_nonvacuous_overlap :
+  let h := [ CBase (AddL 1); CStart true 0 [(1, 2); (2, 2)]; CConnUp [(2, 2); (1, 2)];
+             CStart true 1 [(2, 3); (1, 3); (2, 2)];                 (* while the connector is re-subscribing *)
+             CAnswer ROk; CBase (EventMsg (BRows [((1, 2), 5%Z)])); CAnswer ROk; CAnswer ROk; CAnswer ROk;
+             CAnswer ROk ] in
+  forallb benign h = true
+  /\ (let s := fst (crun ex_raises ex_acts h) in
+      conn (base s) = true /\ sup (base s) = true /\ queue s = []
+      /\ subs (base s) = [(1, 2); (2, 2); (2, 3); (1, 3)] /\ acc s = [(2, 2); (2, 3); (1, 2); (1, 3)])
+  /\ put_ids true (flat_map (fun x => match x with CO o => [o] | _ => [] end) (snd (crun ex_raises ex_acts h)))
+     = [(2, 2); (2, 3); (1, 2); (1, 3); (2, 2)].
+Proof. vm_compute. repeat split. Qed.
+
 Print Assumptions state_is_sets.
 Print Assumptions resubscribe_all.
 Print Assumptions resubscribe_cut_off_iff.
@@ -217,3 +283,8 @@ Print Assumptions event_never_closes.
 Print Assumptions delivery_is_reentrancy_safe.
 Print Assumptions session_ends_only_by_drop.
 Print Assumptions empty_and_nonjson_ignored.
+Print Assumptions conc_state_invariant.
+Print Assumptions conc_fallback_only_after_cutoff.
+Print Assumptions conc_resubscribe_complete.
+Print Assumptions conc_sequential_subscribe_refines.
+Print Assumptions conc_last_call_wins_refuted.
